@@ -75,6 +75,20 @@ def _dtype_cplx(v, default=False):
     return None
 
 
+def _dtype_noop(v, dt):
+    """converting array v to dtype dt is the identity for some admissible input (so no copy is made)"""
+    if dt is None:
+        return True
+    if isinstance(dt, Opaque) and isinstance(dt.what, str) and dt.what.startswith('dtype:'):
+        return True
+    c = _dtype_cplx(dt, None)
+    if c is None:
+        return False
+    if isinstance(dt, ExtV) and dt.base in ('int', 'int64'):
+        return False
+    return (c is True and v.cplx is True) or (c is False and v.cplx is False)
+
+
 def mk(itp, what, *vals):
     return TopV(what, taints(*vals))
 
@@ -205,6 +219,8 @@ def p_conj(itp, name, args, kw, node, st):
         r.deg['g'] = dneg(n.deg['g'])
         r.deg['gy'] = dneg(n.deg['gy'])
     USED.add('conj: swaps the exponents of c and conj(c) (phase exponent negated)')
+    if name.startswith('ndarray.') and isinstance(v, Num) and v.is_array and n.cplx is False:
+        itp.share(r, v, whole=True)      # the conj method of a real array returns the array itself, not a copy
     return r
 
 
@@ -407,6 +423,17 @@ def p_same(itp, name, args, kw, node, st):
             r.seg = list(n.seg)
     if name in ('ndarray.flatten',):
         r.shape = (None,) if n.shape is None or any(d is None for d in n.shape) else (_prod(n.shape),)
+    if name == 'numpy.fliplr' and n.shape is not None and len(n.shape) == 2 and n.shape[1] is not None:
+        from .interp_expr import amap_fliplr
+        r.amap = amap_fliplr(n.amap, n.shape[1])
+        if itp.d4:
+            from . import charge as Q
+            if Q.is_lin2(n.q):
+                r.q = Q.lin2(n.q[1], -n.q[2], n.q[3] + (n.shape[1] - 1).scale(n.q[2]))
+            elif not (isinstance(n.q, Aff) or n.q == 'any'):
+                r.q = None
+    if name in ('numpy.flipud', 'numpy.fliplr', 'numpy.flip', 'ndarray.squeeze', 'numpy.squeeze') and isinstance(v, Num):
+        itp.share(r, v, whole=False)     # views
     return r
 
 
@@ -686,9 +713,12 @@ def p_array(itp, name, args, kw, node, st):
     r.ex = None if r.shape != () else r.ex
     if isinstance(v, Num) and v.seg is not None:
         r.seg = list(v.seg)
-    if isinstance(v, Num) and name.split('.')[-1] in ('asarray', 'asanyarray') and arg(args, kw, 1, 'dtype') is not None or \
-            (isinstance(v, Num) and name.split('.')[-1] in ('asarray', 'asanyarray')):
-        r.view_of = v.view_of            # asarray returns its argument when no conversion is needed
+    nocopy = name.split('.')[-1] in ('asarray', 'asanyarray', 'atleast_1d')
+    cp = kw.get('copy')
+    if isinstance(cp, Const) and cp.v is False:
+        nocopy = True
+    if isinstance(v, Num) and v.is_array and nocopy and _dtype_noop(v, dt):
+        itp.share(r, v, whole=True)      # the argument itself comes back when no conversion is needed
     return r
 
 
@@ -710,6 +740,9 @@ def p_astype(itp, name, args, kw, node, st):
         r.cplx = c
         if c is False:
             r.rv = True
+    cp = kw.get('copy')
+    if isinstance(cp, Const) and cp.v is False and isinstance(args[0], Num) and args[0].is_array and _dtype_noop(args[0], t):
+        itp.share(r, args[0], whole=True)     # astype(copy=False) hands back the array itself when the dtype already matches
     return r
 
 
@@ -724,6 +757,11 @@ def p_transpose(itp, name, args, kw, node, st):
         r.seg = list(n.seg)
         r.segax = len(n.shape) - 1 - n.segax
     r.view_of = n.view_of
+    if n.shape is not None and len(n.shape) == 2 and isinstance(n.q, tuple):
+        from . import charge as Q
+        r.q = Q.lin2(n.q[2], n.q[1], n.q[3]) if Q.is_lin2(n.q) else None
+    if isinstance(args[0], Num):
+        itp.share(r, args[0], whole=False)
     if n.shape is not None and len(n.shape) == 2:
         r.tr = not n.tr
     return r
@@ -741,6 +779,8 @@ def p_reshape(itp, name, args, kw, node, st):
         shape = tuple(_int_aff(x) for x in rest)
     itp.events.append(('reshape', node, n.shape, shape))
     r = n.copy(shape=shape, taint=n.taint | taints(*rest))
+    if isinstance(args[0], Num) and args[0].is_array:
+        itp.share(r, args[0], whole=False)    # reshape returns a view whenever it can
     return r
 
 
@@ -968,6 +1008,8 @@ def p_bilinear(itp, name, args, kw, node, st):
                 r.q = None
         elif base in ('dot', 'vdot', 'inner') and (a.shape == () or b.shape == ()):
             pass            # scalar times array: plain product
+        elif base == 'dot' and a.shape is not None and b.shape is not None and (len(a.shape), len(b.shape)) in ((1, 2), (2, 1), (2, 2)):
+            r.q = Q.contract(itp, a.q, b.q, node)
         elif base not in ('multiply',):
             r.q = None
     sa, sb = a.shape, b.shape
@@ -1095,7 +1137,14 @@ def p_lstsq(itp, name, args, kw, node, st):
     x.shape = (A.shape[1],) if (A.shape is not None and len(A.shape) == 2) else (None,)
     x.ex = None
     x.nonneg = False
-    itp.events.append(('lstsq', node, A, b, x))
+    if itp.d4:
+        from . import charge as Q
+        x.q = Q.lstsq_q(itp, A.q, b.q, node) if Q.is_lin2(A.q) else (x.q if isinstance(x.q, Aff) or x.q == 'any' else None)
+    # extra arguments (cond / rcond / lapack_driver ...): a truncation threshold changes what is solved
+    extra = dict(kw)
+    for i_, a_ in enumerate(args[2:]):
+        extra['<positional %d>' % (i_ + 2)] = a_
+    itp.events.append(('lstsq', node, A, b, x, extra))
     USED.add('lstsq(A,b): the minimiser has exponents deg(b)-deg(A) and one entry per column of A')
     return Tup([x, Num(top_deg(), None, taint=x.taint), IntV(None, x.taint), Num(top_deg(), (None,), taint=x.taint)])
 
@@ -1138,7 +1187,21 @@ def p_toeplitz(itp, name, args, kw, node, st):
     r_ = N(args[1]) if len(args) > 1 else None
     if c is None or (len(args) > 1 and r_ is None):
         return mk(itp, 'toeplitz', *args)
+    cq, rq = c.q, (r_.q if r_ is not None else None)
+    if itp.d4 and r_ is not None:
+        c, r_ = c.copy(), r_.copy()
+        c.q = r_.q = 'any'
     r = c.copy() if r_ is None else num_add(itp, c, r_, node, 'concat')
+    if itp.d4:
+        from . import charge as Q
+        if r_ is None:
+            r.q = cq if (isinstance(cq, Aff) or cq == 'any') else None
+        elif cq == 'any' and rq == 'any':
+            r.q = 'any'
+        elif isinstance(cq, Aff) and isinstance(rq, Aff) and Q.q_eq(cq, rq):
+            r.q = cq
+        else:
+            r.q = Q.toeplitz_q(cq, rq)       # entry (i,j) = c[i-j] / r[j-i]
     n0 = c.shape[0] if c.shape else None
     n1 = (r_.shape[0] if r_.shape else None) if r_ is not None else n0
     r.shape = (n0, n1)
